@@ -105,7 +105,9 @@ def contact(wild=False, tip=False):
 
 def water():
     return st.fixed_dictionaries(
-        dict(anchor=st.integers(0, 10_000), dir=unit_dir(), d=fl(2.7, 3.3))
+        dict(anchor=st.integers(0, 10_000), dir=unit_dir(), d=fl(2.7, 3.3),
+             # hydrogens already present (both), or an incomplete water with only H2 (rare)
+             h=st.sampled_from(["none"] * 8 + ["both"] * 3 + ["H2"]))
     )
 
 
